@@ -78,6 +78,31 @@ impl IovecExec {
                 so.tags.push("traits.a_clone_from".into());
                 Some(self.finish_api_traits(so, None))
             }
+            // `Debug` of every live object (and of the consumer views) must not panic and must not change anything
+            ["dbg"] => {
+                let mut n = 0usize;
+                for v in self.iovs.iter_mut().flatten() {
+                    n += format!("{:?}", v).len() + format!("{:#?}", v).len();
+                    n += format!("{:?}", v.consumer()).len();
+                    if let Ok(st) = v.stable_consumer() {
+                        n += format!("{:?}", st).len();
+                    }
+                }
+                for a in self.aslices.iter().flatten() {
+                    n += format!("{:?}", a).len() + format!("{:#?}", a).len();
+                }
+                for a in self.arenas.iter().flatten() {
+                    n += format!("{:?}", a).len();
+                }
+                for b in self.brefs.iter().flatten() {
+                    n += format!("{:?}", b).len();
+                }
+                if n == 0 && self.iovs.iter().flatten().count() > 0 {
+                    so.violations.push("C03 empty Debug output".into());
+                }
+                so.tags.push("traits.dbg".into());
+                Some(self.finish_api_traits(so, None))
+            }
             _ => None,
         }
     }
@@ -145,6 +170,8 @@ pub fn enumerated_cases() -> Vec<Vec<String>> {
         c(&["scoped_panic new ; register v0 0000 ; backfill v0 b0 aa"]),
         c(&["scoped_panic new ; register v0 0000 ; pop v0"]),
         c(&["new", "push_copy v0 ~10x5000", "scoped_panic new ; push_copy v0 ~40x70000", "push_copy v0 ~50x100", "drop v0"]),
+        c(&["new", "dbg", "push_copy v0 0102", "register v0 0000", "push_borrowed v0 03", "dbg", "new_arena", "read_n a0 4 2 a1a2a3a4 d4", "s_default", "unwinding dbg",
+            "backfill v0 b0 aabb", "clone v0", "consume v0 3", "dbg"]),
     ];
     // clone_from: destination states x source states
     let dsts: [&[&str]; 6] = [
